@@ -26,7 +26,7 @@ HARNESS_ERROR = 3
 class Kernel:
     def __init__(self, name, fn, shapes, *, desc='', native=True, encodes=(), bounds='',
                  outside='', assumptions=(), max_paths=None, time_limit=None,
-                 query_timeout_ms=30000, witnesses=2, setup=None, concrete_fallback=None):
+                 query_timeout_ms=30000, witnesses=2, setup=None, concrete_fallback=None, prescribe=()):
         self.name = name
         self.fn = fn                  # fn(shape) -> None, uses symx.engine()
         self.shapes = shapes          # callable(tier) -> list of JSON-able shapes
@@ -42,6 +42,7 @@ class Kernel:
         self.witnesses = witnesses    # witnesses per shape replayed natively (twin validation)
         self.setup = setup
         self.concrete_fallback = concrete_fallback
+        self.prescribe = set(prescribe)   # modelled hashes whose model values the native replay reuses
 
 
 # ---------------------------------------------------------------------------------------------
@@ -95,6 +96,7 @@ def worker(job):
         eng = symx.Engine(query_timeout_ms=k.query_timeout_ms,
                           max_paths=opts.get('max_paths') or k.max_paths,
                           time_limit=opts.get('time_limit') or k.time_limit)
+        eng.prescribe = set(k.prescribe)
         eng.want_witnesses = k.witnesses if k.native else 0
         eng.witnesses = []
         if k.setup:
@@ -115,6 +117,8 @@ def worker(job):
         out['assumptions'] = sorted(eng.assumptions_used)
         out['witnesses'] = eng.witnesses
         out['inputs'] = {n: kind for n, (kind, _t) in eng.inputs.items()}
+        if eng.fork_sites is not None:
+            out['fork_sites'] = sorted(eng.fork_sites.items(), key=lambda kv: -kv[1])[:25]
     except BaseException as e:   # noqa
         out['error'] = ''.join(traceback.format_exception(type(e), e, e.__traceback__))[-4000:]
     out['wall_s'] = round(time.time() - t0, 3)
@@ -153,8 +157,7 @@ def native_main(argv):
     for it in items:
         k = ks[it['kernel']]
         eng = symx.Engine()
-        eng.prescribed_hashes = {(n, bytes.fromhex(i)): bytes.fromhex(o)
-                                 for n, i, o in it.get('prescribed_hashes', [])}
+        _install_prescription(it['inputs'].get('__hashes__') or [])
         if k.setup:
             k.setup(it['shape'])
         r = {'violation': None, 'error': None}
@@ -170,6 +173,39 @@ def native_main(argv):
         res.append(r)
     print('NATIVE-RESULT ' + json.dumps(res))
     return 0
+
+
+_REAL_HASHES = {}
+
+
+def _install_prescription(table):
+    '''Native replay of a counterexample that depends on values of a *modelled* hash (e.g. two
+    scripts whose 11-byte script hashes collide): the listed (input -> output) pairs override
+    the real function, every other input is hashed for real.'''
+    import hashlib
+    import electrumx.lib.hash as hmod
+    import electrumx.lib.coins as cmod
+    if not _REAL_HASHES:
+        _REAL_HASHES['sha256'] = hmod.sha256
+        _REAL_HASHES['coins'] = cmod.sha256
+    pres = {bytes.fromhex(i): bytes.fromhex(o) for n, i, o in table if n == 'sha256'}
+
+    def sha256(x):
+        x = bytes(x)
+        return pres[x] if x in pres else hashlib.sha256(x).digest()
+
+    class _S:
+        def __init__(self, x=b''):
+            self.x = bytes(x)
+
+        def digest(self):
+            return sha256(self.x)
+    if pres:
+        hmod.sha256 = sha256
+        cmod.sha256 = _S
+    else:
+        hmod.sha256 = _REAL_HASHES['sha256']
+        cmod.sha256 = _REAL_HASHES['coins']
 
 
 def run_native(prop, items, timeout=600):
@@ -241,6 +277,7 @@ def main(prop, argv=None):
     ap.add_argument('--jobs', type=int, default=int(os.environ.get('VERIF_JOBS', '16')))
     ap.add_argument('--max-paths', type=int)
     ap.add_argument('--no-evidence', action='store_true')
+    ap.add_argument('--verbose', action='store_true')
     args = ap.parse_args(argv)
     tier = args.tier if args.tier in ('quick', 'thorough') else 'quick'
     seed = int(os.environ.get('VERIF_SEED', '0') or 0)
@@ -259,6 +296,11 @@ def main(prop, argv=None):
         for r in pool.imap_unordered(worker, jobs, chunksize=1):
             results.append(r)
     results.sort(key=lambda r: (r['kernel'], json.dumps(r['shape'], sort_keys=True)))
+    if args.verbose:
+        for r in results:
+            st = r.get('stats') or {}
+            print(f"  {r['kernel']} wall={r['wall_s']} paths={st.get('paths')} queries={st.get('queries')} "
+                  f"solver_s={round(st.get('solver_s', 0), 1)} shape={json.dumps(r['shape'])[:200]}")
 
     errors = [r for r in results if r['error']]
     agg = {}
